@@ -15,7 +15,7 @@ use crate::token::variance::natural::{
 };
 use crate::token::variance::ops::{Conjunction, Disjunction, Product};
 use crate::token::walk::{ChildToken, Fold, Forward, ParentToken, Sequencer};
-use crate::token::{Boundary, BranchKind, LeafKind};
+use crate::token::{Boundary, BranchKind, Composition, LeafKind, Token};
 
 pub use Boundedness::{Bounded, Unbounded};
 
@@ -315,17 +315,52 @@ impl Sequencer for TreeExhaustiveness {
         &mut self,
         parent: ParentToken<'i, 't, A>,
     ) -> impl Iterator<Item = ChildToken<'i, 't, A>> {
-        parent.into_tokens().rev().take_while(|token| {
-            token.as_ref().as_leaf().map_or(true, |leaf| {
-                if let Some(Boundary::Separator) = leaf.boundary() {
+        fn is_admitted(leaf: &LeafKind<'_>) -> bool {
+            if let Some(Boundary::Separator) = leaf.boundary() {
+                true
+            }
+            else {
+                let breadth = self::term::<Breadth>(leaf);
+                let text = self::term::<Text>(leaf);
+                breadth.is_unbounded() && text.is_unbounded()
+            }
+        }
+
+        // A branch is transparent if all of its leaves are admitted. Any other branch has some
+        // bounded non-depth quantity and so terminates the (reversed) sequence of a conjunctive
+        // parent: tokens that precede such a branch cannot contribute to exhaustiveness.
+        fn is_transparent<A>(token: &Token<'_, A>) -> bool {
+            let mut tokens = vec![token];
+            while let Some(token) = tokens.pop() {
+                match token.as_leaf() {
+                    Some(leaf) => {
+                        if !is_admitted(leaf) {
+                            return false;
+                        }
+                    },
+                    _ => {
+                        if let Some(children) = token.tokens() {
+                            tokens.extend(children.into_inner());
+                        }
+                    },
+                }
+            }
+            true
+        }
+
+        let is_conjunctive = matches!(parent.as_ref().tokens(), Composition::Conjunctive(_));
+        let mut is_terminated = false;
+        parent.into_tokens().rev().take_while(move |token| {
+            if is_terminated {
+                return false;
+            }
+            match token.as_ref().as_leaf() {
+                Some(leaf) => is_admitted(leaf),
+                _ => {
+                    is_terminated = is_conjunctive && !is_transparent(token.as_ref());
                     true
-                }
-                else {
-                    let breadth = self::term::<Breadth>(leaf);
-                    let text = self::term::<Text>(leaf);
-                    breadth.is_unbounded() && text.is_unbounded()
-                }
-            })
+                },
+            }
         })
     }
 }
